@@ -514,30 +514,31 @@ open Hive.Typed.Code Hive.Gen.C06Code
 /-- **The translated code is the model.**  In every state (reachable or not), for every value type, codec,
 operation, compute function and fault vector, running the regenerated method body gives exactly the result, the
 resulting raw bytes, both cache fields and the call trace of the hand-written `step` — hence every `C06_*`
-theorem above is a theorem about the code as translated (`runCode` = `run` for histories).  Also: the translated
+theorem above is a theorem about the code as translated (`runCode` = `run` for histories) — and this over a store that reports its
+errors bare or wrapped in further layers (`w`; `ErrKeyNotFound` included: the code has to use `ierrors.Is`).  Also: the translated
 `cachedValue` is what the language's `cached` statement (used by `Compute`) does. -/
 theorem C06_code_refines_model (C : Codec V) (s : St V) :
-    (∀ op F, execOp prog C s op F = step C s op F) ∧
-    (∀ h, runCode prog C s h = run C s h) ∧
-    (∀ f F (m : M V), exec C f F prog.cachedValue m = .done m [.v (m.st.cv.getD (m.env.v 1)), .b m.st.cv.isSome]) :=
-  ⟨execOp_eq_step C s, runCode_eq_run C s, fun f F m => code_cachedValue_eq C f F m⟩
+    (∀ w op F, execOpW w prog C s op F = step C s op F) ∧
+    (∀ h, runCode prog C s h = run C s (h.map (·.2))) ∧
+    (∀ w f F (m : M V), exec C f F w prog.cachedValue m = .done m [.v (m.st.cv.getD (m.env.v 1)), .b m.st.cv.isSome]) :=
+  ⟨fun w => execOpW_eq_step w C s, runCode_eq_run C s, fun w f F m => code_cachedValue_eq w C f F m⟩
 
 /-- The headline clauses restated for the translated code: from a fresh object, after any history run by the
-translated bodies, the cache equals the store; and any failed call of the next translated operation is reported
-with its own error and leaves raw bytes and cache untouched. -/
-theorem C06_code_coherent_failure_atomic (C : Codec V) (hrt : C.RoundTrip) (raw : Option Bytes) (h : List (Op V × Faults))
-    (op : Op V) (F : Faults) :
+translated bodies (over a store that wraps its errors or not, per call), the cache equals the store; and any failed
+call of the next translated operation is reported with its own error and leaves raw bytes and cache untouched. -/
+theorem C06_code_coherent_failure_atomic (C : Codec V) (hrt : C.RoundTrip) (raw : Option Bytes) (h : List (Bool × Op V × Faults))
+    (w : Bool) (op : Op V) (F : Faults) :
     let s := (runCode prog C (fresh raw) h).1
     Coherent C s ∧
-    (∀ e ∈ (execOp prog C s op F).tr, e.res = .fail →
-      (execOp prog C s op F).st = s ∧ (execOp prog C s op F).out = .err (errOf e.call)) ∧
-    (∀ k, (execOp prog C s op F).out = .err k → ∃ e ∈ (execOp prog C s op F).tr, e.res = .fail ∧ errOf e.call = k) := by
+    (∀ e ∈ (execOpW w prog C s op F).tr, e.res = .fail →
+      (execOpW w prog C s op F).st = s ∧ (execOpW w prog C s op F).out = .err (errOf e.call)) ∧
+    (∀ k, (execOpW w prog C s op F).out = .err k → ∃ e ∈ (execOpW w prog C s op F).tr, e.res = .fail ∧ errOf e.call = k) := by
   intro s
-  have hs : s = final C (fresh raw) h := by
+  have hs : s = final C (fresh raw) (h.map (·.2)) := by
     show (runCode prog C (fresh raw) h).1 = _
     rw [runCode_eq_run, run_fst]
-  rw [execOp_eq_step]
-  exact ⟨hs ▸ (C06_cache_coherent C hrt raw h).1, (C06_failure_atomic C s op F).1, (C06_failure_atomic C s op F).2.1⟩
+  rw [execOpW_eq_step]
+  exact ⟨hs ▸ (C06_cache_coherent C hrt raw (h.map (·.2))).1, (C06_failure_atomic C s op F).1, (C06_failure_atomic C s op F).2.1⟩
 
 /-- **Lock discipline of the translated bodies** (regenerated, decided on every run): on every path of
 `Get/Has/Compute/Set/Delete` the shared cache fields are read only with the read or the write lock held; store
